@@ -28,6 +28,90 @@ type seqCase struct {
 	MoreAt  []int  `json:"more_at"`  // ebsp: op boundaries (index of next op) where MoreRbspData is called
 	TrailAt int    `json:"trail_at"` // ebsp: boundary at which a fresh reader tries ReadRbspTrailingBits (-1: none)
 	RemAt   int    `json:"rem_at"`   // Reader pairs: boundary from which ReadRemainingBytes is used (-1: none)
+	// Dst / Src: what the library writer writes into and the library reader reads from
+	// ("" = bytes.Buffer / bytes.Reader; see newSink / newSource)
+	Dst string `json:"dst,omitempty"`
+	Src string `json:"src,omitempty"`
+}
+
+// plainWriter exposes Write only (no WriteByte, no ReadFrom): a file or a socket as the library sees it.
+type plainWriter struct{ buf *bytes.Buffer }
+
+func (p plainWriter) Write(b []byte) (int, error) { return p.buf.Write(b) }
+
+func newSink(kind string, buf *bytes.Buffer) io.Writer {
+	if kind == "plain-writer" {
+		return plainWriter{buf}
+	}
+	return buf
+}
+
+// The sources stay seekable: EBSPReader.MoreRbspData documents that it needs an io.ReadSeeker.
+type oneByteReader struct{ r io.ReadSeeker }
+
+func (o oneByteReader) Read(p []byte) (int, error) {
+	if len(p) == 0 {
+		return 0, nil
+	}
+	return o.r.Read(p[:1])
+}
+func (o oneByteReader) Seek(off int64, w int) (int64, error) { return o.r.Seek(off, w) }
+
+// dataErrReader returns the final bytes together with io.EOF.
+type dataErrReader struct {
+	b   []byte
+	pos int
+}
+
+func (d *dataErrReader) Read(p []byte) (int, error) {
+	n := copy(p, d.b[d.pos:])
+	d.pos += n
+	if d.pos >= len(d.b) {
+		return n, io.EOF
+	}
+	return n, nil
+}
+
+func (d *dataErrReader) Seek(off int64, w int) (int64, error) {
+	switch w {
+	case io.SeekCurrent:
+		off += int64(d.pos)
+	case io.SeekEnd:
+		off += int64(len(d.b))
+	}
+	if off < 0 || off > int64(len(d.b)) {
+		return 0, io.ErrUnexpectedEOF
+	}
+	d.pos = int(off)
+	return off, nil
+}
+
+// hesitantReader returns (0, nil) on every other call.
+type hesitantReader struct {
+	r   io.ReadSeeker
+	odd bool
+}
+
+func (h *hesitantReader) Seek(off int64, w int) (int64, error) { return h.r.Seek(off, w) }
+
+func (h *hesitantReader) Read(p []byte) (int, error) {
+	h.odd = !h.odd
+	if h.odd || len(p) == 0 {
+		return 0, nil
+	}
+	return h.r.Read(p)
+}
+
+func newSource(kind string, b []byte) io.Reader {
+	switch kind {
+	case "one-byte":
+		return oneByteReader{bytes.NewReader(b)}
+	case "data+EOF":
+		return &dataErrReader{b: b}
+	case "hesitant":
+		return &hesitantReader{r: bytes.NewReader(b)}
+	}
+	return bytes.NewReader(b)
 }
 
 var boundaryWidths = []int{1, 2, 7, 8, 9, 15, 16, 17, 23, 24, 25, 31, 32}
@@ -160,6 +244,8 @@ func alphaBytes(r *runner.Rand, n int) []byte {
 // genSeq builds a sequence for a pair.
 func genSeq(r *runner.Rand, pair string) *seqCase {
 	sc := &seqCase{Pair: pair, TrailAt: -1, RemAt: -1}
+	sc.Dst = r.PickStr("", "", "plain-writer")
+	sc.Src = r.PickStr("", "", "one-byte", "data+EOF", "hesitant")
 	nops := 1 + r.Intn(60)
 	if r.Chance(1, 50) {
 		nops = 60 + r.Intn(340)
@@ -427,7 +513,7 @@ func checkSeq(c *runner.Ctx, sc *seqCase) bool {
 		switch sc.Pair {
 		case "writer-reader":
 			var buf bytes.Buffer
-			w := bits.NewWriter(&buf)
+			w := bits.NewWriter(newSink(sc.Dst, &buf))
 			for i := range sc.Ops {
 				o := &sc.Ops[i]
 				switch o.K {
@@ -450,7 +536,7 @@ func checkSeq(c *runner.Ctx, sc *seqCase) bool {
 			out = buf.Bytes()
 		case "ebsp":
 			var buf bytes.Buffer
-			w := bits.NewEBSPWriter(&buf)
+			w := bits.NewEBSPWriter(newSink(sc.Dst, &buf))
 			for i := range sc.Ops {
 				o := &sc.Ops[i]
 				switch o.K {
@@ -630,7 +716,7 @@ func readPlain(c *runner.Ctx, sc *seqCase, stream []byte, bounds []int, dataBits
 	}
 	var key, msg string
 	pi := c.Guard(func() {
-		r := bits.NewReader(bytes.NewReader(stream))
+		r := bits.NewReader(newSource(sc.Src, stream))
 		fail := func(k, m string) { key, msg = k, m }
 		rd := func(i int, n int, want uint64) bool {
 			got := r.Read(n)
@@ -900,7 +986,7 @@ func readEBSP(c *runner.Ctx, sc *seqCase, rbsp []byte, bounds []int, dataBits in
 	}
 
 	pi := c.Guard(func() {
-		r := bits.NewEBSPReader(bytes.NewReader(esc))
+		r := bits.NewEBSPReader(newSource(sc.Src, esc))
 		if !readOps(r, len(sc.Ops), true) {
 			return
 		}
@@ -932,7 +1018,7 @@ func readEBSP(c *runner.Ctx, sc *seqCase, rbsp []byte, bounds []int, dataBits in
 	})
 	if pi == nil && key == "" && sc.TrailAt >= 0 && sc.TrailAt <= len(sc.Ops) && T >= 0 {
 		pi = c.Guard(func() {
-			r := bits.NewEBSPReader(bytes.NewReader(esc))
+			r := bits.NewEBSPReader(newSource(sc.Src, esc))
 			if !readOps(r, sc.TrailAt, false) {
 				return
 			}
